@@ -558,7 +558,7 @@ def gen_random(seed, world, tier):
                   "client": client, "cfgname": cname}
             if R.random() < 0.2:
                 st["args"] = _with_layout(R, st["args"])
-            elif R.random() < 0.3 and isinstance(st["args"][0], dict) and not st["args"][0].get("storage"):
+            elif R.random() < 0.3 and isinstance(st["args"][0], dict):   # dense ndarray or sparse object
                 # the client reuses one buffer for its matrices (refilled in place between calls)
                 st["args"] = [dict(st["args"][0], buf=f"A{oi}")] + st["args"][1:]
         if R.random() < 0.35:
@@ -576,7 +576,9 @@ def gen_random(seed, world, tier):
             else:
                 st["fault"] = {"jitter": R.randrange(2 ** 31)}
         steps.append(st)
-        if st["k"] in ("call", "fn") and "fault" not in st and R.random() < 0.12:
+        if st["k"] == "fn" and "fault" not in st and R.random() < 0.10 and st["fn"] not in _inplace():
+            steps.append({"k": "mutate", "of": len(steps) - 1, "client": client})
+        elif st["k"] in ("call", "fn") and "fault" not in st and R.random() < 0.12:
             steps.append({"k": "repeat", "of": len(steps) - 1, "client": R.randrange(nclients)})
         elif st["k"] in ("call", "fn") and "fault" not in st and R.random() < 0.10 \
                 and not any(isinstance(a, dict) and a.get("gen") == "result" for a in st.get("args", [])):
@@ -606,6 +608,24 @@ def gen_jobs(base_seed, tier, budget=None):
                 jobs.append({"seed": base_seed * 10 ** 6 + 700000 + sid,
                              "trace": gen_recovery(base_seed * 10 ** 6 + 700000 + sid, w, cfgname, p1, p2, picks)})
             sid += 1
+    # values returned by the library's "factory" helpers are overwritten by the caller, then each
+    # configuration is exercised (an internally shared / cached identity or test matrix would leak)
+    for cfgname, cls_, cfg_, meth_, pool_ in CONFIGS:
+        for w in exh_worlds:
+            seed = base_seed * 10 ** 6 + 610000 + sid
+            steps = [{"k": "rng", "op": "seed", "v": 31}]
+            for n_ in (1, 2, 3, 4, 5, 6):
+                steps.append({"k": "fn", "fn": "utils.quat_eye", "args": [n_], "client": 1})
+                steps.append({"k": "mutate", "of": len(steps) - 1, "client": 1})
+            steps.append({"k": "fn", "fn": "data_gen.small_test_Mat", "args": [], "client": 1})
+            steps.append({"k": "mutate", "of": len(steps) - 1, "client": 1})
+            steps.append({"k": "new", "obj": "s0", "cls": cls_, "cfg": cfg_})
+            for pi in (1, 2, 0):
+                steps.append({"k": "call", "obj": "s0", "meth": meth_, "args": pool_[pi], "client": 0, "cfgname": cfgname})
+            steps.append({"k": "fn", "fn": "data_gen.small_test_Mat", "args": [], "client": 1})
+            jobs.append({"seed": seed, "trace": {"prop": PROP, "seed": seed, "world": w, "mode": "buffer",
+                                                 "cfgname": cfgname, "seq": ["factory-mutate"], "steps": steps}})
+        sid += 1
     # re-configuration: every mirrored attribute is switched between its candidate values on a live
     # object (in particular from a falsy value to a real one), a call after every switch
     for cfgname, cls_, cfg_, meth_, pool_ in CONFIGS:
@@ -729,7 +749,8 @@ class Hooks(BaseHooks):
         # reach back into them (returned objects aliasing internal state)
         from ..world import TIMING_IDX, digest
         for i, rec in enumerate(ex.recs):
-            if rec.get("k") not in ("call", "fn") or rec.get("ok") != "ret" or "digest" not in rec:
+            if rec.get("k") not in ("call", "fn") or rec.get("ok") != "ret" or "digest" not in rec \
+                    or rec.get("client_mutated"):
                 continue
             step = self.trace["steps"][i]
             if step.get("fn") in _inplace():
